@@ -22,7 +22,7 @@
    library itself writes; the one hypothesis left is that each message fits the threshold (see K1). *)
 From Coq Require Import List NArith Bool Arith.
 Import ListNotations.
-From Indi Require Import Base.Sx Buffer.Model Buffer.Props Buffer.Junk Buffer.Framing Buffer.Run Buffer.Concrete Buffer.Spelling
+From Indi Require Import Base.Sx Buffer.Model Buffer.Props Buffer.Junk Buffer.Framing Buffer.Run Buffer.Concrete Buffer.Multi Buffer.Spelling
   Msg.Registry Msg.RegOk Msg.Equality Msg.Model Msg.Codec Xml.Lex Xml.Print Xml.Opener Xml.FirstTag Generated.RegistryData.
 
 (* A stream l = junk, message, junk, message, ... (junk free of known-tag openers:
@@ -164,6 +164,21 @@ Print Assumptions any_accepted_stream_is_framed_promptly.
 
 (* non-vacuity: a notice and a vector with children are sendable under the default threshold, and
    the buffer model, run on their bytes cut after every third byte, hands over both *)
+(* several connections in one process: each has a buffer of its own, so what a connection delivers is what it would
+   deliver alone - whatever reaches the others, in whatever order, wherever their streams end *)
+Theorem connections_do_not_disturb_each_other : forall msg parse tags (thr : nat -> option nat) arr b c,
+  of_conn c (fst (serve msg parse tags thr b arr)) = fst (feed msg parse tags (thr c) (b c) (of_conn c arr)) /\
+  snd (serve msg parse tags thr b arr) c = snd (feed msg parse tags (thr c) (b c) (of_conn c arr)).
+Proof. exact Buffer.Multi.serve_isolates. Qed.
+Print Assumptions connections_do_not_disturb_each_other.
+
+Theorem each_connection_is_framed_whatever_the_others_receive : forall (thr : nat -> option nat) arr l c,
+  stream_ok (thr c) l -> concat (of_conn c arr) = flatten msg l ->
+  let outs := of_conn c (fst (serve msg concrete_parse (rbuffer_tags live_registry) thr (fun _ => []) arr)) in
+  Forall (fun om => fst om = Done) outs /\ deliveries msg outs = msgs msg l.
+Proof. exact Buffer.Spelling.each_connection_is_framed_whatever_the_others_receive. Qed.
+Print Assumptions each_connection_is_framed_whatever_the_others_receive.
+
 From Coq Require Import String.
 Example c02_stream_nonvacuous :
   let note := {| mk := s2l "message"; ma := [(s2l "device", s2l "d"); (s2l "message", [60; 233; 128512]%N)]; mv := None; mc := None |} in
